@@ -245,6 +245,7 @@ type c55Case struct {
 	Params           []c55Pair   `json:"-"`
 	ParamDesc        [][2]int    `json:"param_sizes"` // (len name, len value)
 	BodyLen          int         `json:"body_len"`
+	BodyStyle        string      `json:"body_reader"`
 	Root             string      `json:"root,omitempty"`
 	EnvVars          [][2]string `json:"env_vars,omitempty"`
 	RawHead          string      `json:"raw_head,omitempty"` // request line + headers (long values abbreviated)
@@ -423,10 +424,128 @@ func c55DrawScript(rt *rapid.T, c *c55Case) {
 	}
 }
 
+// c55EncLen is the size of a name-value length field (spec 3.4).
+func c55EncLen(n int) int {
+	if n <= 127 {
+		return 1
+	}
+	return 4
+}
+
+// c55DrawNearLimitParams: many fields of one length profile whose encoded
+// FCGI_PARAMS stream ends within a few hundred bytes of the record size limit
+// (65 500 used by the client, 65 535 of the format).
+func c55DrawNearLimitParams(rt *rapid.T, c *c55Case) {
+	target := 0
+	switch rapid.IntRange(0, 3).Draw(rt, "target-class") {
+	case 0:
+		target = rapid.IntRange(65480, 65545).Draw(rt, "target")
+	case 1:
+		target = rapid.IntRange(65000, 65500).Draw(rt, "target")
+	default:
+		target = rapid.IntRange(65536, 67000).Draw(rt, "target")
+	}
+	profile := rapid.IntRange(0, 3).Draw(rt, "profile")
+	lens := func() (int, int) {
+		switch profile {
+		case 0: // both lengths need the 4-byte form but still fit in one byte
+			return rapid.IntRange(128, 255).Draw(rt, "nl"), rapid.IntRange(128, 255).Draw(rt, "vl")
+		case 1:
+			return rapid.IntRange(8, 60).Draw(rt, "nl"), rapid.IntRange(128, 255).Draw(rt, "vl")
+		case 2:
+			return rapid.IntRange(5, 30).Draw(rt, "nl"), rapid.IntRange(0, 100).Draw(rt, "vl")
+		}
+		return rapid.IntRange(256, 600).Draw(rt, "nl"), rapid.IntRange(256, 600).Draw(rt, "vl")
+	}
+	fixed := rapid.Bool().Draw(rt, "fixed-lengths")
+	nl0, vl0 := lens()
+	size := 0
+	for i := 0; i < 4000; i++ {
+		nl, vl := nl0, vl0
+		if !fixed {
+			nl, vl = lens()
+		}
+		pre := fmt.Sprintf("N%d_", i)
+		if nl < len(pre) {
+			nl = len(pre)
+		}
+		enc := c55EncLen(nl) + c55EncLen(vl) + nl + vl
+		if size+enc > target {
+			// last pair: shrink/stretch the value so that the stream ends at the target
+			rest := target - size - c55EncLen(nl) - nl
+			switch {
+			case rest-1 >= 0 && rest-1 <= 127:
+				vl = rest - 1
+			case rest-4 >= 128:
+				vl = rest - 4
+			default:
+				vl = -1
+			}
+			if vl >= 0 {
+				c.Params = append(c.Params, c55Pair{pre + c55Fill(nl-len(pre), byte(i), c55Token), c55Fill(vl, byte(i*3), c55Token)})
+			}
+			return
+		}
+		c.Params = append(c.Params, c55Pair{pre + c55Fill(nl-len(pre), byte(i), c55Token), c55Fill(vl, byte(i*3), c55Token)})
+		size += enc
+	}
+}
+
+// c55BodyReader hands out the body the way different producers do: in reads
+// of `chunk` bytes, the last bytes optionally TOGETHER with io.EOF (allowed by
+// the io.Reader contract; iotest.DataErrReader, pipe- and frame-based bodies).
+type c55BodyReader struct {
+	data        []byte
+	chunk       int
+	eofWithData bool
+}
+
+func (r *c55BodyReader) Read(p []byte) (int, error) {
+	if len(r.data) == 0 {
+		return 0, io.EOF
+	}
+	n := len(p)
+	if r.chunk > 0 && n > r.chunk {
+		n = r.chunk
+	}
+	if n > len(r.data) {
+		n = len(r.data)
+	}
+	copy(p, r.data[:n])
+	r.data = r.data[n:]
+	if len(r.data) == 0 && r.eofWithData {
+		return n, io.EOF
+	}
+	return n, nil
+}
+func (r *c55BodyReader) Close() error { return nil }
+
+var c55BodyStyles = []string{"bytes.Reader", "bytes.Reader", "data+EOF", "data+EOF/4096", "1-byte", "1000-byte", "data+EOF/1-byte"}
+
+func c55NewBodyReader(style string, body []byte) io.ReadCloser {
+	switch style {
+	case "data+EOF":
+		return &c55BodyReader{data: body, eofWithData: true}
+	case "data+EOF/4096":
+		return &c55BodyReader{data: body, chunk: 4096, eofWithData: true}
+	case "data+EOF/1-byte":
+		return &c55BodyReader{data: body, chunk: 1, eofWithData: true}
+	case "1-byte":
+		return &c55BodyReader{data: body, chunk: 1}
+	case "1000-byte":
+		return &c55BodyReader{data: body, chunk: 1000}
+	}
+	return nil // the plain bytes.Reader / the body bfe_http.ReadRequest made
+}
+
 func c55DrawDoCase(rt *rapid.T, c *c55Case) {
 	c.Mode = "do"
 	n := 0
-	switch rapid.IntRange(0, 5).Draw(rt, "nparams-class") {
+	switch rapid.IntRange(0, 6).Draw(rt, "nparams-class") {
+	case 6:
+		c55DrawNearLimitParams(rt, c)
+		c.body = c55DrawBody(rt)
+		return
 	case 0:
 		n = rapid.IntRange(0, 2).Draw(rt, "nparams")
 	case 1, 2, 3:
@@ -651,7 +770,13 @@ func c55Check(tb ev.TB, rec *ev.Rec, c *c55Case) {
 		classes = append(classes, "stdout>65535")
 	}
 	fpb := &bytes.Buffer{}
-	fmt.Fprintf(fpb, "%s|%x|%x|%v|%v|%s", c.Mode, c55Hash(c.body), c55Hash(c.raw), c.Script, c.EnvVars, c.Root)
+	if len(c.body) > 0 {
+		classes = append(classes, "body-reader:"+c.BodyStyle)
+	}
+	if block >= 65000 && block <= 67100 {
+		classes = append(classes, "param-block-near-64k")
+	}
+	fmt.Fprintf(fpb, "%s|%s|%x|%x|%v|%v|%s", c.Mode, c.BodyStyle, c55Hash(c.body), c55Hash(c.raw), c.Script, c.EnvVars, c.Root)
 	ps := append([]c55Pair{}, c.Params...)
 	sort.Slice(ps, func(i, j int) bool { return ps[i].K < ps[j].K })
 	for _, p := range ps {
@@ -687,7 +812,11 @@ func c55Check(tb ev.TB, rec *ev.Rec, c *c55Case) {
 			return
 		}
 		o.panicked = ev.Try(func() {
-			r, err := client.Do(sent, bytes.NewReader(c.body))
+			var body io.Reader = bytes.NewReader(c.body)
+			if br := c55NewBodyReader(c.BodyStyle, c.body); br != nil {
+				body = br
+			}
+			r, err := client.Do(sent, body)
 			if err != nil {
 				o.err = err
 				return
@@ -712,6 +841,9 @@ func c55Check(tb ev.TB, rec *ev.Rec, c *c55Case) {
 			env := map[string]string{}
 			for _, kv := range c.EnvVars {
 				env[kv[0]] = kv[1]
+			}
+			if br := c55NewBodyReader(c.BodyStyle, c.body); br != nil && len(c.body) > 0 {
+				outreq.Body = br // a body produced by another layer (h2/spdy stream, a module)
 			}
 			tr := &bfe_fcgi.Transport{Root: c.Root, EnvVars: env} // createTransport, case "fcgi"
 			resp, err := tr.RoundTrip(outreq)
@@ -947,6 +1079,7 @@ func TestC55(t *testing.T) {
 		} else {
 			c55DrawDoCase(rt, c)
 		}
+		c.BodyStyle = c55BodyStyles[rapid.IntRange(0, len(c55BodyStyles)-1).Draw(rt, "body-reader")]
 		c55DrawScript(rt, c)
 		c55Check(rt, rec, c)
 	})
